@@ -19,6 +19,7 @@ RULE = ("every charge pattern of length <= Lp (quick 10, thorough 12) with a ran
         "anchors sv1 / sv30; distinct = distinct charge pattern; non-trivial = at least two charged residues")
 RULE += ("; added after the mutation rounds: several 1000-2000-residue chains analysed in one process (longer first, one repeated); every value asked twice; objects from lower-case text / around a backend object; the first cases of every shard are judged again at its end")
 RULE += ("; round 5: charged-residue counts 511..514, 769, 1023..1025; objects restored from pickle / copy; look-alike words (nucleotide strings, reading frames); salt shuffles with frozen entries that are no positions")
+RULE += ("; round 6: charged patches joined by charge-free linkers of 99-260 residues")
 EXHAUSTIVE = {"quick": False, "thorough": False}
 EXHAUSTIVE_NOTE = {"quick": "all patterns of length <= 10 (88,572)", "thorough": "all patterns of length <= 12 (797,160)"}
 ASSUMPTIONS = [
